@@ -32,6 +32,8 @@ let dispatch kind : (z list list -> z list list) =
   | "lostseg" -> run_lostseg
   | "checksum" -> run_checksum
   | "fs" -> run_fs
+  | "dest" -> run_dest
+  | "source" -> run_source
   | _ -> failwith ("unknown kind " ^ kind)
 
 let () =
